@@ -317,6 +317,14 @@ type c01view struct {
 }
 
 func (v c01view) coq() string {
+	switch {
+	case !v.hasData && !v.hasSize && !v.hasMeta:
+		return "V0"
+	case v.hasData && v.hasSize && !v.hasMeta:
+		return fmt.Sprintf("VD %d %d", v.data, v.size)
+	case v.hasData && v.hasSize && v.hasMeta:
+		return fmt.Sprintf("VM %d %d %d %d %s", v.data, v.size, v.mName, v.mCid, c01z(v.mPl))
+	}
 	d, s, m := "None", "None", "None"
 	if v.hasData {
 		d = fmt.Sprintf("(Some %d)", v.data)
@@ -327,7 +335,7 @@ func (v c01view) coq() string {
 	if v.hasMeta {
 		m = fmt.Sprintf("(Some (%d, %d, %s))", v.mName, v.mCid, c01z(v.mPl))
 	}
-	return "mkview " + d + " " + s + " " + m
+	return "VX " + d + " " + s + " " + m
 }
 
 func c01z(i int64) string { return fmt.Sprintf("(%d)%%Z", i) }
@@ -419,7 +427,11 @@ func (e *c01env) record(op, kind, out string) {
 		}
 	}
 	e.ops = append(e.ops, op)
-	e.obs = append(e.obs, "("+out+", "+verifhlib.List(dv)+", "+verifhlib.List(hv)+")")
+	if d, h := verifhlib.List(dv), verifhlib.List(hv); d == h {
+		e.obs = append(e.obs, "OB "+out+" "+d)
+	} else {
+		e.obs = append(e.obs, "OB2 "+out+" "+d+" "+h)
+	}
 	e.hist = append(e.hist, kind)
 }
 
